@@ -381,3 +381,121 @@ def rule_L1d_transition(ctx, rid='L1d'):
     tr = SamplerTracker(run_f, G_SHELL.members + ['shell_n_sample_exp', 'shell_end_exp'])
     rule_derived(ctx, rid, run_f, 'shell_n_sample', 'shell_n_sample_exp', tr)
     rule_derived(ctx, rid, run_f, 'points', 'shell_end_exp', tr)
+
+
+# ---------------------------------------------------------------------------
+# U1  update_shell_info touches only the slot it was asked to recompute
+# ---------------------------------------------------------------------------
+
+PER_SHELL = set(G_SHELL.members) | {'shell_n_sample_exp', 'shell_end_exp'}
+
+
+def rule_U1(ctx, rid='U1'):
+    ctx.rule(rid, 'slot discipline: update_shell_info(index) reads and writes the per-shell '
+             'records (samples, counts, statistics, bound, exploration boundaries) only at '
+             '`index`, and the recomputed volume depends on the bound volume, the sample count '
+             'and the proposal count of that same shell')
+    f = ctx.program.func('Sampler.update_shell_info')
+    cfg = cfg_of(f)
+    idx = [p for p in f.params if p != f.self_name][0]
+    n = 0
+    bad = []
+    for sub in walk_no_nested(f.node):
+        if isinstance(sub, ast.Subscript):
+            ra = root_attr(sub, f.self_name)
+            if ra and ra[0] in PER_SHELL and ra[1] and ra[1][0][0] == 'idx':
+                n += 1
+                first = ra[1][0][1]
+                if not (isinstance(first, ast.Name) and first.id == idx):
+                    bad.append((sub.lineno, unparse(sub)))
+        # whole-array use of a per-shell record inside the recomputation is suspicious too
+    ctx.ob(rid, 'Sampler.update_shell_info:only-own-slot', not bad and n >= 8, f.where(),
+           'all %d accesses to per-shell records use the slot `%s`' % (n, idx) if not bad else
+           'per-shell records are accessed at another slot: %s' % bad[:3])
+    # dependencies of the recomputed volume
+    from .agree import _depends
+    vol = [x for x in cfg.nodes if x.kind == 'stmt' and isinstance(x.ast, ast.Assign) and
+           root_attr(x.ast.targets[0], f.self_name) and
+           root_attr(x.ast.targets[0], f.self_name)[0] == 'shell_log_v' and
+           not isinstance(x.ast.value, (ast.Constant, ast.UnaryOp))]
+    ctx.require(vol, 'update_shell_info: recomputation of shell_log_v not found')
+    v = vol[0]
+    deps = {
+        'bound-volume': lambda e: isinstance(e, ast.Attribute) and e.attr == 'log_v' and
+        root_attr(e.value, f.self_name) and root_attr(e.value, f.self_name)[0] == 'bounds',
+        'sample-count': lambda e: isinstance(e, ast.Call) and dotted(e.func) == 'len',
+        'proposal-count': lambda e: isinstance(e, ast.Attribute) and
+        dotted(e) == 'self.shell_n_sample',
+    }
+    for k, pred in deps.items():
+        ok = _depends(cfg, v.id, v.ast.value, pred)
+        ctx.ob(rid, 'Sampler.update_shell_info:volume-depends-on(%s)' % k, ok, f.where(v.ast),
+               'the shell volume depends on the %s' % k if ok else
+               'the shell volume does not depend on the %s' % k)
+    # the samples summarised are the stored likelihoods of this shell from `start` on
+    src = [x for x in cfg.nodes if x.kind == 'stmt' and isinstance(x.ast, ast.Assign) and
+           isinstance(x.ast.value, ast.Subscript) and
+           isinstance(x.ast.value.slice, ast.Slice) and
+           root_attr(x.ast.value.value, f.self_name) and
+           root_attr(x.ast.value.value, f.self_name)[0] == 'log_l']
+    ok = bool(src) and src[0].ast.value.slice.upper is None and \
+        src[0].ast.value.slice.step is None and isinstance(src[0].ast.value.slice.lower, ast.Name)
+    ctx.ob(rid, 'Sampler.update_shell_info:summarises-stored-likelihoods', ok, f.where(),
+           'the statistics are computed from self.log_l[index][start:]' if ok else
+           'the statistics are not computed from the tail self.log_l[index][start:]')
+
+
+# ---------------------------------------------------------------------------
+# M7  shell_association: membership = last containing bound
+# ---------------------------------------------------------------------------
+
+def rule_M7(ctx, rid='M7'):
+    ctx.rule(rid, 'shell_association assigns each point the largest index among the bounds that '
+             'contain it: bounds are visited from the newest down and a point, once assigned, '
+             'is never reassigned (or they are visited upwards and every hit overwrites)')
+    f = ctx.program.func('Sampler.shell_association')
+    cfg = cfg_of(f)
+    loops = [lp for lp in walk_no_nested(f.node) if isinstance(lp, ast.For) and
+             any(isinstance(c, ast.Call) and isinstance(c.func, ast.Attribute) and
+                 c.func.attr == 'contains' for c in ast.walk(lp))]
+    ctx.require(len(loops) == 1, 'shell_association: loop over the bounds not found')
+    lp = loops[0]
+    it = lp.iter
+    desc = False
+    e = it
+    while isinstance(e, ast.Call) and dotted(e.func) in ('reversed', 'list', 'enumerate'):
+        if dotted(e.func) == 'reversed':
+            desc = not desc
+        e = e.args[0]
+    over_bounds = root_attr(e, f.self_name) and root_attr(e, f.self_name)[0] == 'bounds'
+    # the value written is the enumerate index paired with the bound tested
+    tgt = lp.target
+    pair_ok = isinstance(tgt, ast.Tuple) and len(tgt.elts) == 2 and \
+        all(isinstance(t, ast.Name) for t in tgt.elts)
+    assigns = [s for s in ast.walk(lp) if isinstance(s, ast.Assign) and
+               isinstance(s.targets[0], ast.Subscript) and isinstance(s.value, ast.Name) and
+               pair_ok and s.value.id == tgt.elts[0].id]
+    cont = [c for c in ast.walk(lp) if isinstance(c, ast.Call) and
+            isinstance(c.func, ast.Attribute) and c.func.attr == 'contains']
+    recv_ok = pair_ok and all(isinstance(c.func.value, ast.Name) and
+                              c.func.value.id == tgt.elts[1].id for c in cont)
+    ctx.ob(rid, 'Sampler.shell_association:index-paired-with-bound', bool(
+        over_bounds and pair_ok and assigns and recv_ok), f.where(lp),
+        'the index written for a point is the enumerate index of the bound that was tested')
+    # once assigned never reassigned: the test is applied only to unassigned points
+    only_unassigned = False
+    if assigns:
+        res_name = assigns[0].targets[0].value.id if isinstance(
+            assigns[0].targets[0].value, ast.Name) else None
+        for s in ast.walk(lp):
+            if isinstance(s, ast.Assign) and isinstance(s.value, ast.Compare) and \
+                    isinstance(s.value.left, ast.Name) and s.value.left.id == res_name and \
+                    isinstance(s.value.ops[0], (ast.GtE, ast.Lt)):
+                only_unassigned = True
+    ok = (desc and only_unassigned) or (not desc and not only_unassigned)
+    ctx.ob(rid, 'Sampler.shell_association:last-containing-bound', bool(over_bounds and ok),
+           f.where(lp), 'bounds are visited newest-first and only unassigned points are tested: '
+           'a point gets the last bound that contains it' if ok else
+           'the visiting order (%s) and the update discipline (%s) do not select the LAST '
+           'containing bound' % ('descending' if desc else 'ascending',
+                                 'unassigned only' if only_unassigned else 'overwrite'))
